@@ -19,7 +19,7 @@ use crate::template::Block;
 use crate::Ctx;
 use quote::ToTokens;
 use serde_json::{json, Value};
-use std::collections::HashMap;
+use std::collections::{HashMap, HashSet};
 use syn::spanned::Spanned;
 
 #[derive(Default)]
@@ -218,6 +218,8 @@ struct Lifter<'a> {
     closure_base: Vec<usize>,
     /// `const_values`: module constants of the source file (name -> initialiser)
     consts: HashMap<String, syn::Expr>,
+    /// L21b: module constants (of the source file and of `consts_from` files) whose declared type is an array
+    const_tables: HashSet<String>,
     const_stack: Vec<String>,
     /// `named_sums` flag of the directive: `.sum()` of a compound array expression gets a named summand function
     named_sums: bool,
@@ -542,7 +544,7 @@ impl<'a> Lifter<'a> {
                     return Ok(v(full.clone(), ty));
                 }
                 // L21: a module constant (SCREAMING_CASE, single segment) is an uninterpreted real constant
-                if p.path.segments.len() == 1 && (s.len() > 1 || self.consts.contains_key(&s)) && s.chars().all(|c| c.is_ascii_uppercase() || c.is_ascii_digit() || c == '_') {
+                if p.path.segments.len() == 1 && (s.len() > 1 || self.consts.contains_key(&s) || self.const_tables.contains(&s)) && s.chars().all(|c| c.is_ascii_uppercase() || c.is_ascii_digit() || c == '_') {
                     // `const_values` (directive flag): a module constant whose initialiser is made of literals, other
                     // constants and arithmetic keeps its value
                     if let Some(init) = self.consts.get(&s).cloned() {
@@ -575,6 +577,15 @@ impl<'a> Lifter<'a> {
                                 }
                             }
                         }
+                    }
+                    if self.const_tables.contains(&s) {
+                        // L21b: a constant table without `const_values` is one uninterpreted array constant
+                        let decl = format!("pub uninterp spec fn K_{s}() -> RArr;");
+                        if !self.havocs.contains(&decl) {
+                            self.havocs.push(decl);
+                        }
+                        self.note("L21b", e.span(), &format!("module constant table `{s}` lifted to an uninterpreted array constant"));
+                        return Ok(v(format!("K_{s}()"), "RArr"));
                     }
                     let decl = format!("pub uninterp spec fn K_{s}() -> real;");
                     if !self.havocs.contains(&decl) {
@@ -1450,7 +1461,91 @@ impl<'a> Lifter<'a> {
         self.stmts_inner(rest, cont)
     }
 
+    /// L32: statement forms that are rewritten to forms of the rule list before lifting
+    ///  (a) `for (a, &b) in X.axis_iter(Axis(0)).zip(Y.iter()) BODY` (also `outer_iter()`; `Y.iter()` or `&Y`) is
+    ///      `for k in 0..Y.len() { let a = X.index_axis(Axis(0), k); let b = Y[k]; BODY }` (zip of equally long sequences, A10)
+    ///  (b) `A.iter_mut().zip(B.iter()).for_each(|(m, &r)| BODY)` with a local A is
+    ///      `A = Zip::from(&A).and(&B).map_collect(|&m0, &r| { let mut m = m0; BODY'; m })`, BODY' = BODY with `*m` read as `m`
+    fn desugar_stmt(st: &syn::Stmt) -> Option<syn::Stmt> {
+        fn strip_ref(p: &syn::Pat) -> &syn::Pat {
+            match p { syn::Pat::Reference(r) => &r.pat, other => other }
+        }
+        let syn::Stmt::Expr(e, _) = st else { return None };
+        match e {
+            syn::Expr::ForLoop(f) => {
+                let syn::Pat::Tuple(tp) = &*f.pat else { return None };
+                if tp.elems.len() != 2 { return None; }
+                let syn::Expr::MethodCall(z) = &*f.expr else { return None };
+                if z.method != "zip" || z.args.len() != 1 { return None; }
+                let syn::Expr::MethodCall(ax) = &*z.receiver else { return None };
+                let x = &ax.receiver;
+                let is_axis0 = ax.method == "outer_iter" && ax.args.is_empty()
+                    || ax.method == "axis_iter" && ax.args.len() == 1 && ax.args[0].to_token_stream().to_string().replace(' ', "") == "Axis(0)";
+                if !is_axis0 { return None; }
+                let mut y = &z.args[0];
+                while let syn::Expr::Reference(r) = y { y = &r.expr; }
+                if let syn::Expr::MethodCall(yi) = y {
+                    if yi.method == "iter" && yi.args.is_empty() { y = &yi.receiver; } else { return None; }
+                }
+                let (pa, pb) = (strip_ref(&tp.elems[0]), strip_ref(&tp.elems[1]));
+                let stmts = &f.body.stmts;
+                let synth: syn::Stmt = syn::parse2(quote::quote!(
+                    for k__z in 0..(#y).len() { let #pa = (#x).index_axis(Axis(0), k__z); let #pb = (#y)[k__z]; #(#stmts)* }
+                )).ok()?;
+                Some(synth)
+            }
+            syn::Expr::MethodCall(fe) if fe.method == "for_each" && fe.args.len() == 1 => {
+                let syn::Expr::Closure(cl) = &fe.args[0] else { return None };
+                let syn::Expr::MethodCall(z) = &*fe.receiver else { return None };
+                if z.method != "zip" || z.args.len() != 1 { return None; }
+                let syn::Expr::MethodCall(im) = &*z.receiver else { return None };
+                if im.method != "iter_mut" || !im.args.is_empty() { return None; }
+                let syn::Expr::Path(ap) = &*im.receiver else { return None };
+                let a = ap.path.get_ident()?.clone();
+                let mut b = &z.args[0];
+                while let syn::Expr::Reference(r) = b { b = &r.expr; }
+                if let syn::Expr::MethodCall(bi) = b {
+                    if bi.method == "iter" && bi.args.is_empty() { b = &bi.receiver; } else { return None; }
+                }
+                if cl.inputs.len() != 1 { return None; }
+                let syn::Pat::Tuple(tp) = &cl.inputs[0] else { return None };
+                if tp.elems.len() != 2 { return None; }
+                let syn::Pat::Ident(m) = &tp.elems[0] else { return None };
+                let m = m.ident.clone();
+                let pb = strip_ref(&tp.elems[1]);
+                struct Un(syn::Ident);
+                impl syn::visit_mut::VisitMut for Un {
+                    fn visit_expr_mut(&mut self, e: &mut syn::Expr) {
+                        if let syn::Expr::Unary(u) = e {
+                            if matches!(u.op, syn::UnOp::Deref(_)) {
+                                if let syn::Expr::Path(p) = &*u.expr {
+                                    if p.path.is_ident(&self.0) {
+                                        *e = (*u.expr).clone();
+                                        return;
+                                    }
+                                }
+                            }
+                        }
+                        syn::visit_mut::visit_expr_mut(self, e);
+                    }
+                }
+                let mut body = (*cl.body).clone();
+                syn::visit_mut::VisitMut::visit_expr_mut(&mut Un(m.clone()), &mut body);
+                let m0 = syn::Ident::new(&format!("{m}__in"), m.span());
+                let synth: syn::Stmt = syn::parse2(quote::quote!(
+                    #a = Zip::from(&#a).and(&#b).map_collect(|&#m0, &#pb| { let mut #m = #m0; #body; #m });
+                )).ok()?;
+                Some(synth)
+            }
+            _ => None,
+        }
+    }
+
     fn one_stmt(&mut self, st: &syn::Stmt, rest: &[syn::Stmt], cont: Option<&dyn Fn(&mut Self) -> R<Val>>) -> R<Val> {
+        if let Some(synth) = Self::desugar_stmt(st) {
+            self.note("L32", st.span(), "statement rewritten (zip of rows and entries as an index loop / iter_mut().zip().for_each as an element-wise map)");
+            return self.one_stmt(&synth, rest, cont);
+        }
         match st {
             syn::Stmt::Local(l) => {
                 let init = l.init.as_ref().ok_or("let without initialiser")?;
@@ -2684,6 +2779,25 @@ impl<'a> Lifter<'a> {
                             let (pn, body) = self.closure1(&m.args[0], "real")?;
                             let (pre, rn, post) = self.arr_bind(&recv);
                             return Ok(v(format!("{pre}RArr {{ len: {0}.len, at: |i__: int| {{ let {pn} = ({0}.at)(i__); {1} }} }}{post}", rn, body.text), "RArr"));
+                        }
+                    }
+                }
+            }
+        }
+        // `Zip::from(&a).and(&b).map_collect(|&x, &y| e)` is `a.iter().zip(&b).map(|(&x, &y)| e).collect()` (ndarray's Zip
+        // panics on a shape mismatch: equal lengths, A10)
+        if name == "map_collect" && m.args.len() == 1 {
+            if let syn::Expr::MethodCall(and) = &*m.receiver {
+                if and.method == "and" && and.args.len() == 1 {
+                    if let (syn::Expr::Call(c), syn::Expr::Closure(cl)) = (&*and.receiver, &m.args[0]) {
+                        if let syn::Expr::Path(fp) = &*c.func {
+                            if Self::path_str(&fp.path) == "Zip::from" && c.args.len() == 1 && cl.inputs.len() == 2 {
+                                let (a, b, p0, p1, body) = (&c.args[0], &and.args[0], &cl.inputs[0], &cl.inputs[1], &cl.body);
+                                let synth: syn::Expr = syn::parse2(quote::quote!((#a).iter().zip(#b).map(|(#p0, #p1)| #body).collect()))
+                                    .map_err(|e| e.to_string())?;
+                                self.note("L16c", whole.span(), "Zip::from(a).and(b).map_collect lifted as the element-wise map over the common index range");
+                                return self.expr(&synth);
+                            }
                         }
                     }
                 }
@@ -4225,6 +4339,7 @@ pub fn lift_fn(ctx: &mut Ctx, blk: &Block) -> Result<(String, Value), String> {
             consts: if blk.flag("const_values") {
                 std::iter::once(&file).chain(consts_from.iter()).flat_map(|f| ctx.files[f].1.items.iter()).filter_map(|it| match it { syn::Item::Const(c) => Some((c.ident.to_string(), (*c.expr).clone())), _ => None }).collect()
             } else { HashMap::new() },
+            const_tables: std::iter::once(&file).chain(consts_from.iter()).flat_map(|f| ctx.files[f].1.items.iter()).filter_map(|it| match it { syn::Item::Const(c) if matches!(&*c.ty, syn::Type::Array(_)) => Some(c.ident.to_string()), _ => None }).collect(),
             const_stack: vec![],
             dirty_captured: vec![],
             loopvars: blk.opt("loopvars").map(|t| t.split(';').filter_map(|kv| kv.split_once(':').map(|(a, b)| (a.trim().to_string(), b.trim().to_string()))).collect()).unwrap_or_default(),
